@@ -41,6 +41,10 @@ func (c *listCtx) verdict(rule, fname, construct string, fn *ssa.Function, it *I
 		return
 	}
 	c.r.OK(rule)
+	if n := len(c.r.Samples); n == 0 || c.r.lastSampleRule != rule {
+		c.r.lastSampleRule = rule
+		c.r.Sample(map[string]any{"rule": rule, "func": fname, "instance": construct, "verdict": "matches the specified layout / value for all values of the symbolic bits", "term_nodes": it.T.next})
+	}
 }
 
 func newListInterp(w *World) *Interp {
